@@ -607,7 +607,11 @@ sxround_dur_cocl(dt_sexy_t t, struct dt_dtdur_s dur, bool nextp)
 		return t;
 	}
 	/* unpack t */
-	with (unsigned int diff = t % (dt_sexy_t)sdur) {
+	with (dt_ssexy_t diff = t % (dt_sexy_t)sdur) {
+		if (diff < 0) {
+			/* before the epoch, multiples are older still */
+			diff += sdur;
+		}
 		if (!diff && !nextp) {
 			/* do nothing, i.e. really nothing,
 			 * in particular, don't set the slots again in the
